@@ -29,9 +29,9 @@ def itemsOfE : List (LNode × LNode) → List RawItem
   | (k, v) :: es => itemsOf k ++ itemsOf v ++ itemsOfE es
 end
 
-/-- the code's deliberate special case: an *anchored* empty quoted scalar is delivered as plain -/
-def normStyle (v : List Char) (st : Style) (a : Nat) : Style :=
-  if v.isEmpty && a != 0 && (st == .single || st == .double) then .plain else st
+/-- style of a delivered scalar: unchanged (the former special case that turned an *anchored* empty quoted
+scalar into a plain one was repaired in /repo, see known_findings.json C02-anchored-empty-quoted) -/
+def normStyle (_v : List Char) (st : Style) (_a : Nat) : Style := st
 
 def scalarEv (v : List Char) (st : Style) (a : Nat) (tag : Option (List Char)) (loc : Loc) : Ev :=
   .scalar v (tagCode tag) tag (normStyle v st a) a loc
